@@ -39,7 +39,7 @@ LOCAL BdivQR(N, nn, D, dn, Q, R, cy) == /\ Fits(Q, nn - dn) /\ Fits(R, dn) /\ cy
 
 FunsK2 == {"mpn_sb_div_q", "mpn_sb_divappr_q", "mpn_dc_div_qr", "mpn_dc_div_qr_n", "mpn_dc_div_q", "mpn_dc_divappr_q",
            "mpn_divrem_2", "mpn_divexact",
-           "mpn_inv_div_qr", "mpn_inv_div_qr_n", "mpn_inv_div_q", "mpn_inv_divappr_q", "mpn_inv_divappr_q_n", "mpn_invert",
+           "mpn_inv_div_qr", "mpn_inv_div_qr_n", "mpn_inv_div_q", "mpn_inv_divappr_q", "mpn_inv_divappr_q_n",
            "mpn_sb_bdiv_q", "mpn_sb_bdiv_qr", "mpn_dc_bdiv_q", "mpn_dc_bdiv_qr", "mpn_dc_bdiv_q_n", "mpn_dc_bdiv_qr_n", "mpn_bdivmod",
            "mpn_mod_1_k", "mpn_mod_1_k_wrap", "mpn_preinv_mod_1", "mpn_preinv_divrem_1", "mpn_mod_34lsub1",
            "mpn_divexact_byff", "mpn_divexact_byfobm1", "mpn_modexact_1c_odd", "mpn_divisible_p",
@@ -73,9 +73,6 @@ PostK2(f, i, o) ==
      [] f = "mpn_inv_divappr_q_n" ->
            /\ Appr(i.n, i.d, ZAdd(o.q, ZShl(o.qh, W * i.dn))) /\ Fits(o.q, i.dn) /\ o.qh \in {"0", "1"}
         \* invert.c (mpn_is_invert): X*A < B^(2n) and B^(2n) - X*A <= A, where X = B^n + {xp,n}
-     [] f = "mpn_invert" ->
-           LET X == ZAdd(Bn(i.n), o.x)  P == ZMul(X, i.a) IN
-           /\ Fits(o.x, i.n) /\ ZLt(P, Bn(2 * i.n)) /\ ZLe(ZSub(Bn(2 * i.n), P), i.a)
         \* divrem_2.c: "Divide num (NP/NSIZE) by den (DP/2) and write the NSIZE-2 least significant quotient limbs at QP and the 2 long
         \* remainder at NP.  If QEXTRA_LIMBS is non-zero, generate that many fraction bits ...  Return the most significant limb of the
         \* quotient, this is always 0 or 1."  Preconditions: NSIZE >= 2, most significant bit of the divisor set.
